@@ -32,7 +32,7 @@ def check(c):
     #    and a tree rebuilt from Elems answers identically
     cases, uni = c.path("rt_cases.ndjson"), c.path("rt_universe.json")
     c.parallel([lambda: c.model_check("RadixMC", RADIX_CFG, tag="RadixMC_roundtrip", workers=8),
-                lambda: c.model_check("RadixMC", GEN_CFG % (4 if thorough else 3), tag="RadixMC_roundtrip_small",
+                lambda: c.model_check("RadixMC", GEN_CFG % 3, tag="RadixMC_roundtrip_small",
                                       env={"OUT_FILE": cases, "UNIVERSE_FILE": uni}, workers=8, timeout=3000)], max_workers=2)
     # G: every insertion sequence of the 40-pattern sub-universe: NewMiddleware(list) vs NewMiddleware(*Config()) vs the original after
     #    Reconfigure(Config()), on all 84 probe origins (real vs real)
